@@ -24,7 +24,7 @@ TECH = {
  "C16": "MIR-path rules on the function dispatched for `append`: provenance of every contribution to the collected vector (current argument, through a tail-following list walk, never a whole list), argument order via iterator element provenance, result wiring; sibling agreement of list walks on tail-variable handling; includes C15's who-may-call rule on the splicing constructor — structural clauses only",
  "C17": "sibling cross-check of every built-in's list walk (tail-variable flag read, lookup with the substitution set, continuation into the bound list) on MIR paths; wiring of count / include / exclude; polarity and binds-nothing rules of the filter (outcome of the trial unification vs. flag, trial set used only as a test) — structural clauses only, functor and join are not decided",
  "C18": "panic-site inventory over parser-reachable MIR (explicit panics, unwraps, bounds/overflow asserts) with guard-based discharge",
- "C19": "writer/reader agreement between the token-grouping passes and the token-tree-to-goal pass (token kinds produced vs. handled, union over MIR paths); registry agreement Display(Infix) vs. the infix scanners — one structural clause of the property, the round trip itself is not decided",
+ "C19": "writer/reader agreement between the token-grouping passes and the token-tree-to-goal pass (token kinds produced vs. handled, union over MIR paths); registry agreement Display(Infix) vs. the infix scanners; provenance of the value formatted in the number arms of Display(Unifiable) over MIR paths — structural clauses of the property, the round trip itself is not decided",
  "C20": "sibling cross-check of the scanners that classify a term's text for the term constructor, by finite-domain evaluation over the character alphabet: per scanner, flag and character class the effect (always / never / depends) of a first and of a later character is read off the MIR paths of one trip round the scanning loop (comparisons, `match` on the character, `char::is_ascii_digit`-style predicates; flags as locals or as fields of a struct; forwarding wrappers skipped) and compared between scanners; who-may-call rule on `str::parse::<i64|f64>`; call-graph and dominator rule that a term one scanner builds itself behind a detector function (arithmetic infix) is built by every scanner (one open known finding) — structural clauses of the property, equality of the parsers on every text is not decided",
  "C21": "error-discipline rule over the MIR paths of the file loader and the functions of its source file it reaches (every `Err` of a fallible step and every message of a line / bracket check leads to an error return without another loop trip); wiring of loader (reader -> rule parser -> insertion, in order, via iterator element provenance) and of reader (kept lines appended once, in order) — structural clauses only, the line joining / comment stripping / period splitting themselves are not decided",
  "C22": "inventory of process-wide mutable state read by the solver; must-write rule for query constructors",
